@@ -8,6 +8,8 @@ import OnlVerif.Lemmas.SplitFuelStep
 import OnlVerif.Lemmas.SplitPlanMain
 import OnlVerif.Lemmas.SplitWFScript
 import OnlVerif.Lemmas.SplitPlanDemo
+import OnlVerif.Lemmas.SplitWFDec
+import OnlVerif.Lemmas.SplitSimDemo
 import OnlVerif.Props.C01
 /-!
 # C03 — runs are reproducible and unaffected by where they are stopped and resumed
@@ -584,6 +586,92 @@ example : ∃ S' K sK cs x, execPlan (_root_.body SplitPlanDemo.progs) 5 100 Spl
       SplitPlanDemo.s0_pos SplitPlanDemo.run_scoped hS'
     exact ⟨S', K, sK, cs, x, rfl, h1, by rw [h2]; exact SplitPlanDemo.plan_stops, h3, h5, h6, hret.1, hret.2.1⟩
 
+/-! ## The program hypothesis at run level
+
+`BodySim ρ rσ body` constrains the whole interaction tree of every resumption (every reply the kernel *could* give).  The
+proofs need it only along the replies the kernel *does* give: `SimBurst` (one burst from a state of the uninterrupted run),
+`c.SimStep body fuel s` (every burst the step from `s` executes), `c.SimAlong body fuel s` (every step of the continuation
+from `s`), `PlanSim I body fuel budget plan s0` (at each numeric stop of the plan, made in split state `S`: `SimAlong` for the
+renaming of that stop along the run that continues from `S` without the stop).  Like `ScopedRun`, these are statements about
+one concrete run: equations between the calls, values and local states the program produces on the original and on the
+renamed inputs; they are decidable (`Lemmas/SplitWFDec.lean`) and, for runs that end, finite (`AllUpTo`, `PlanSimUpTo`). -/
+
+open SplitPlan in
+/-- **An id-opaque program satisfies the run-level hypotheses** (so they are weaker than `BodySim`; strictly: `oddBody`
+below satisfies them and is not `BodySim`). -/
+theorem id_opaque_implies_runlevel (I : IdSt σ) (body : σ → Resume → Burst ℚ σ) (fuel budget : Nat) :
+    (∀ (c : SplitCfg σ), BodySim c.ρ c.rσ body → ∀ s, c.SimStep body fuel s ∧ c.SimAlong body fuel s) ∧
+    ((∀ u, 0 < u → BodySim (shAt u) (I.rn u) body) → ∀ plan s0, PlanSim I body fuel budget plan s0) :=
+  ⟨fun c hB s => ⟨c.simStep_of_bodySim body hB fuel s, c.simAlong_of_bodySim body hB fuel s⟩,
+    fun hB plan s0 => planSim_of_bodySim body fuel budget hB plan s0⟩
+
+open SplitWF SplitPlan in
+/-- **The run-level hypotheses of a run that ends can be checked by evaluation**: if the run from `s0` ends within `N`
+steps and each of its steps names existing ids only / is id-opaque at run level (`AllUpTo …`, decidable), then `ScopedRun` /
+`SimAlong` hold; the same for the plan hypothesis (`PlanSimUpTo`, decidable, implies `PlanSim`). -/
+theorem runlevel_hypotheses_checkable (I : IdSt σ) (body : σ → Resume → Burst ℚ σ) (fuel budget N : Nat) (s0 : KState ℚ σ) :
+    (AllUpTo (fun p st r s => ScopedBurst I p (body st r) s) body fuel s0 N → ScopedRun I body fuel s0) ∧
+    (∀ c : SplitCfg σ, AllUpTo (c.simP body) body fuel s0 N → c.SimAlong body fuel s0) ∧
+    (∀ plan, PlanSimUpTo I body fuel budget N plan s0 → PlanSim I body fuel budget plan s0) :=
+  ⟨scopedRun_of_upTo I body fuel s0 N, fun c => c.simAlong_of_upTo body fuel s0 N,
+    fun plan => PlanSimUpTo.planSim body fuel budget N plan s0⟩
+
+open SplitWF SplitPlan in
+/-- **`run(until=t)` is transparent up to the renaming of event ids — with run-level hypotheses only**: as
+`until_time_split_transparent`, with `BodySim` replaced by `SimAlong` for the split made in `s`. -/
+theorem until_time_split_transparent_runlevel (I : IdSt σ) (body : σ → Resume → Burst ℚ σ) (fuel n : Nat) (t : ℚ)
+    (s s' : KState ℚ σ) (v : Val)
+    (hr : Reach I body fuel s) (hS : ScopedRun I body fuel s) (hns : AllStopFree s) (hpos : 0 < s.events.size)
+    (hsim : (SplitCfg.at s hpos t (I.rn s.events.size)).SimAlong body fuel s)
+    (h : runUntilTime body fuel n t s = .returned v s') :
+    s.now < t ∧ v = .none ∧ ∃ k sk, k < n ∧ stepN body fuel k s = .ok sk ∧
+      s' = (SplitCfg.at s hpos t (I.rn s.events.size)).afterSentinel sk ∧
+      s'.trace = sk.trace.map (rnObs (shAt s.events.size)) ∧ viewTrace s' = viewTrace sk ∧ viewProcs s' = viewProcs sk ∧
+      s'.now = t ∧ AllStopFree s' := by
+  obtain ⟨hlt, hv, k, sk, hk, h1, h2, hi, h5, _, _⟩ :=
+    runUntilTime_transparent_ws_run body fuel n t s s' v hpos hr.ws hS hr.sorted hns hsim h
+  have hok : StackOK I [SplitCfg.at s hpos t (I.rn s.events.size)] sk := ⟨hi.size, hi.eid, rfl, trivial⟩
+  have hs' : s' = splitState [SplitCfg.at s hpos t (I.rn s.events.size)] sk t := h2
+  refine ⟨hlt, hv, k, sk, hk, h1, h2, by rw [h2]; rfl, ?_, ?_, by rw [h2]; rfl, h5⟩
+  · rw [hs', viewTrace_splitState, viewTrace_stackT _ sk hok]
+  · rw [hs', viewProcs_splitState, viewProcs_stackT _ sk hok]
+
+open SplitWF SplitPlan in
+/-- **Split plans are transparent — with run-level hypotheses only**: as `split_plan_transparent`, with `BodySim` at every
+split index replaced by `PlanSim` for this plan execution.  Every hypothesis is now either a property of the initial state
+(`WS`, `SortedAg`, `AllStopFree`, one event) or of the concrete runs (`ScopedRun`, `PlanSim`). -/
+theorem split_plan_transparent_runlevel (I : IdSt σ) (body : σ → Resume → Burst ℚ σ) (fuel budget : Nat)
+    (plan : List Piece) (s0 S' : KState ℚ σ)
+    (h0 : WS I s0) (hs0 : SortedAg s0) (hns0 : AllStopFree s0) (hpos : 0 < s0.events.size) (hS : ScopedRun I body fuel s0)
+    (hsim : PlanSim I body fuel budget plan s0)
+    (h : execPlan body fuel budget plan s0 = some S') :
+    ∃ K sK cs x, stepN body fuel K s0 = .ok sK ∧ cs.length = numStops plan ∧ S' = splitState cs sK x ∧
+      S'.trace = sK.trace.map (rnObs (stackρ cs)) ∧ viewTrace S' = viewTrace sK ∧ viewProcs S' = viewProcs sK ∧
+      AllStopFree S' ∧ SortedAg S' ∧ WS I S' := by
+  obtain ⟨K, sK, cs, x, h1, h2, _, h4, h5, h6, h7, h8, h9, h10, _⟩ :=
+    plan_transparent_run body fuel budget plan s0 S' h0 hs0 hns0 hpos hS hsim h
+  exact ⟨K, sK, cs, x, h1, h2, h4, h5, h6, h7, h8, h9, h10⟩
+
+open SplitPlan in
+/-- the run-level theorem applies where the program-level one does not: `SplitSimDemo.oddBody` names a guessed id in a
+branch the kernel never takes — it is **not** `BodySim` at any split index `≤ 1000` — yet its run satisfies `ScopedRun` and
+`PlanSim` (kernel-evaluated), so its plan with **three numeric stops** is transparent -/
+example : (∀ u, u ≤ 1000 → ¬ BodySim (shAt u) (SplitSimDemo.IN.rn u) SplitSimDemo.oddBody) ∧
+    ∃ S' K sK cs x, execPlan SplitSimDemo.oddBody 5 100 SplitSimDemo.plan SplitSimDemo.t0 = some S' ∧
+      stepN SplitSimDemo.oddBody 5 K SplitSimDemo.t0 = .ok sK ∧ cs.length = 3 ∧ S' = splitState cs sK x ∧
+      viewTrace S' = viewTrace sK ∧ viewProcs S' = viewProcs sK ∧ S'.trace.size = 12 := by
+  refine ⟨SplitSimDemo.oddBody_not_bodySim, ?_⟩
+  have hret := SplitSimDemo.plan_returns
+  cases hS' : execPlan SplitSimDemo.oddBody 5 100 SplitSimDemo.plan SplitSimDemo.t0 with
+  | none => rw [hS'] at hret; cases hret
+  | some S' =>
+    rw [hS'] at hret
+    simp only [Option.map_some, Option.some.injEq, Prod.mk.injEq] at hret
+    obtain ⟨K, sK, cs, x, h1, h2, h3, _, h5, h6, _⟩ := split_plan_transparent_runlevel SplitSimDemo.IN _ 5 100
+      SplitSimDemo.plan SplitSimDemo.t0 S' SplitSimDemo.t0_facts.1 SplitSimDemo.t0_facts.2.1 SplitSimDemo.t0_facts.2.2.1
+      SplitSimDemo.t0_pos SplitSimDemo.run_scoped SplitSimDemo.plan_sim hS'
+    exact ⟨S', K, sK, cs, x, rfl, h1, by rw [h2]; rfl, h3, h5, h6, hret.1⟩
+
 /-
 What remains open for `split_transparent` (everything else above is proved for every program and every state):
 * stages 1 and 2 (`step()` and `run(until=event)` splits) are complete: the split run passes through *exactly* the states
@@ -593,12 +681,13 @@ What remains open for `split_transparent` (everything else above is proved for e
   `_partial` theorem (`Closed`, `CondWF`/`BuildAlloc` behind `FuelAlong`, `SortedAg`, `now < t`) are discharged for every
   reachable state by the well-scopedness invariant `WS`; the empty event table (`0 < u`) is covered as the inert case.
   What is left are hypotheses, not gaps:
-  - `BodySim (shAt u) (I.rn u) body` for the split indices `u` — the program treats ids as opaque tokens.  It is a
-    program-level hypothesis on arbitrary model programs (proved for every script program).  A run-level replacement in the
-    style of `ScopedRun` ("along this run, the program fed with renamed inputs issues the renamed calls") is possible —
-    `T_runBurst` uses `BurstSim` only along the replies that occur — but needs the walk `T_resume … step_T_true …
-    runUntilTime_transparent` (`Lemmas/SplitSentStep.lean`, `SplitTime.lean`, ≈ 600 lines) redone with the mirrored
-    predicate (`SplitWF.StepAll` is ready for it); not done.
+  - the program hypothesis: `BodySim (shAt u) (I.rn u) body` at the split indices `u` (the program treats ids as opaque
+    tokens; program level, proved for every script program), or its run-level replacement `SimAlong` / `PlanSim` (section
+    "The program hypothesis at run level": along the runs concerned, the program fed with renamed inputs issues the renamed
+    calls; implied by `BodySim`, strictly weaker, decidable per step and finite for runs that end).  `PlanSim` speaks about
+    the runs that continue from each numeric stop *without* that stop — for `k` stops these are `k` runs (the uninterrupted
+    one and `k - 1` split ones); a formulation on the uninterrupted run alone would need the run-level hypothesis to
+    transfer along `T` (true for `BodySim` programs, not derivable from one run).
   - `ScopedRun I body fuel s0` — along the uninterrupted run the program names existing ids only (run-level, implied by the
     program-level `ScopedProg`, which holds for every script program).  Genuine: model programs can guess ids, Python
     programs cannot.
